@@ -127,6 +127,9 @@ def parts(tier):
         Part("bisect_exh", enumerate=_enum(tier), timeout=60, exhaustive=True),
         Part("bisect_gen", strategy=_bisect_gen(), examples=3000 if q else 60000, timeout=60),
         Part("hermite", strategy=_hermite(), examples=5000 if q else 200000, timeout=60),
+        # coverage-guided campaigns over the same strategies and oracles (pbt/fuzz.py)
+        Part("bisect_cov", strategy=_bisect_gen(), fuzz=1600 if q else 160000, timeout=60),
+        Part("hermite_cov", strategy=_hermite(), fuzz=1600 if q else 160000, timeout=60),
     ]
 
 
